@@ -24,7 +24,8 @@ RULE = (
     "pair of hosts, tick x k (1-6), terminal stop/start, node shutdown/startup; requests are formed by the agent "
     "actions' form_request. Exhaustive: every sequence of fixed depth over a reduced alphabet after each of four "
     "prefixes (none / two sessions of one user / three sessions / stale client handle); random: Hypothesis sequences "
-    "to depth 30. Non-trivial = the case sends a remote command (both ends ON, terminals running) from a client to a "
+    "to depth 30 plus a steered family (two or three sessions on one target, the first kept busy by commands at intervals "
+    "below the time-out while a later one idles past it and is then used). Non-trivial = the case sends a remote command (both ends ON, terminals running) from a client to a "
     "target on which a session of that client was ended by logout, time-out or password change, or attempts a login "
     "with valid credentials while max_remote_sessions are open; distinct by case hash."
 )
@@ -318,6 +319,10 @@ def run_case(case: Dict) -> CaseResult:
                 m.now += 1
                 may_end: Dict[str, str] = {}
                 for j in range(n):
+                    ages = [m.now - s_.last for s_ in m.live(j).values()]  # in login order
+                    if any(a < T <= b for x, a in enumerate(ages) for b in ages[x + 1:]):
+                        # an older session kept busy while a session opened after it reaches its time-out
+                        res.label("tick:older-busy-newer-expiring")
                     for sid, s in m.live(j).items():
                         age = m.now - s.last
                         if age > T:
@@ -605,6 +610,43 @@ def case_strategy(draw, max_len: int, excl: List[str]):
     return {"n": n, "T": T, "dur": dur, "bob": bob, "ops": ops, "excl": list(excl)}
 
 
+@st.composite
+def busy_idle_case(draw, excl: List[str]):
+    """Steered shape: two (or three) sessions on one target, the one that logged in first keeps sending commands at
+    intervals shorter than the time-out while a later one idles past its time-out and is then used; a little random
+    noise around it. Per-session last-active bookkeeping in the model decides which of them must be closed."""
+    n = draw(st.sampled_from([2, 3, 3]))
+    T = draw(st.integers(3, 5))
+    dur = draw(st.sampled_from([0, 0, 0, 1]))
+    t = draw(st.integers(0, n - 1))
+    clients = [c for c in range(n) if c != t]
+    a = draw(st.sampled_from(clients))
+    b = draw(st.sampled_from(clients))
+    noise = op_strategy(n)
+    ops = draw(st.lists(noise, max_size=2))
+    ops.append(["login", a, t, "admin", "@cur"])
+    if draw(st.booleans()):
+        ops.append(["tick", draw(st.integers(1, T - 1))])
+        ops.append(["cmd", a, t])
+    ops.append(["login", b, t, "admin", "@cur"])
+    if draw(st.integers(0, 3)) == 0:
+        ops.append(["login", draw(st.sampled_from(clients)), t, "admin", "@cur"])
+    elapsed = 0
+    target = T + draw(st.integers(1, 3))
+    while elapsed < target:
+        d = draw(st.integers(1, T - 1))
+        ops.append(["tick", d])
+        elapsed += d
+        ops.append(["cmd", a, t])  # keeps the first session fresh (when a == b the first handle is the first session)
+        if draw(st.integers(0, 5)) == 0:
+            ops.append(draw(noise))
+    ops.append(["cmd", b, t])
+    ops.append(["login", b, t, "admin", "@cur"])  # the idle session must no longer count against the limit
+    ops.extend(draw(st.lists(noise, max_size=3)))
+    bob = [None] * n
+    return {"n": n, "T": T, "dur": dur, "bob": bob, "ops": ops, "excl": list(excl)}
+
+
 LOGIN = ["login", 0, 1, "admin", "@cur"]
 # 4th prefix: the session times out while the client's terminal is stopped, so the client keeps a stale handle
 STALE = [LOGIN, ["term", 0, "stop"], ["tick", 3], ["tick", 2], ["term", 0, "start"]]
@@ -649,6 +691,22 @@ ACC_ALPHABET = [
 ]
 
 
+# busy/idle block (n=3): two clients hold a session on h1; which of them logged in first varies with the prefix
+BUSY_PREFIXES = [
+    [["login", 0, 1, "admin", "@cur"], ["login", 2, 1, "admin", "@cur"]],
+    [["login", 2, 1, "admin", "@cur"], ["login", 0, 1, "admin", "@cur"]],
+]
+BUSY_ALPHABET = [
+    ["cmd", 0, 1],
+    ["cmd", 2, 1],
+    ["tick", 1],
+    ["tick", 2],
+    ["tick", 3],
+    ["logoff", 0, 1],
+    ["login", 0, 1, "admin", "@cur"],
+]
+
+
 def exhaustive_plan(tier: str):
     alphabet = EXH_ALPHABET if tier == "quick" else EXH_ALPHABET + EXH_EXTRA
     depth = 3 if tier == "quick" else 4
@@ -663,6 +721,10 @@ def exhaustive_cases(tier: str, excl: List[str]):
                    "excl": list(excl)}
     for seq in itertools.product(ACC_ALPHABET, repeat=3 if tier == "quick" else 4):
         yield {"n": 2, "T": 3, "dur": 0, "bob": [None, False], "ops": [list(o) for o in seq], "excl": list(excl)}
+    for pre in BUSY_PREFIXES:
+        for seq in itertools.product(BUSY_ALPHABET, repeat=3 if tier == "quick" else 5):
+            yield {"n": 3, "T": 3, "dur": 0, "bob": [], "ops": [list(o) for o in pre] + [list(o) for o in seq],
+                   "excl": list(excl)}
 
 
 def worker(ctx: Ctx):
@@ -675,7 +737,12 @@ def worker(ctx: Ctx):
         f"(none) and (2 logins of admin h0->h1), and of depth {plan[2][1]} after the prefixes (3 logins) and (a session "
         f"timed out while the client terminal was stopped, leaving a stale client handle); plus, with a second account "
         f"declared on h1, all sequences of depth {plan[0][1]} over a {len(ACC_ALPHABET)}-symbol accounts alphabet (re-add of "
-        f"existing enabled / disabled names, disable, logins and a local command with the re-add's password)"
+        f"existing enabled / disabled names, disable, logins and a local command with the re-add's password); plus, n=3, "
+        f"after two logins on h1 from two clients (both login orders), all sequences of depth "
+        f"{3 if ctx.tier == 'quick' else 5} over a {len(BUSY_ALPHABET)}-symbol alphabet (command via either session, tick "
+        f"1/2/3, logoff, login) -- one session kept busy while the other idles past the time-out"
     )
-    nrand = 220 if ctx.tier == "quick" else 2500
+    nrand = 180 if ctx.tier == "quick" else 2000
     hyp_run(ctx, case_strategy(30, excl), run_case, nrand)
+    nsteer = 60 if ctx.tier == "quick" else 600
+    hyp_run(ctx, busy_idle_case(excl), run_case, nsteer, sub=1)
